@@ -672,3 +672,116 @@ T('c01-twin-eof-test', 'C01', """                chunk = stream.read(_read_chunk
 T('c01-twin-chunksize', 'C01', "        _read_chunk_size = 524288\n        writer = self._new_object_writer()", "        _read_chunk_size = 262144\n        writer = self._new_object_writer()")
 
 M('c18-seed-b-unbounded-inflate', 'C18', "                decompressed_chunk = self._decompressor.decompress(compressed_chunk, size)", "                decompressed_chunk = self._decompressor.decompress(compressed_chunk)", 'C18.R5', U)
+
+# ------------------------------------------------------------------------------------------------ C10
+M('c10-keep-returns-false', 'C10', "        # Use the same compression type\n        return source_compressed", "        # Use the same compression type\n        return False", 'C10.R1', U)
+M('c10-swap-sums', 'C10', "select(func.coalesce(func.sum(Obj.size), 0).label('total_size_packed'))", "select(func.coalesce(func.sum(Obj.length), 0).label('total_size_packed'))", 'C10.R4')
+M('c10-flag-inverted', 'C10', "                                compress=obj_dict['compressed'],\n                                hash_type=hash_type,", "                                compress=not obj_dict['compressed'],\n                                hash_type=hash_type,", 'C10.R2')
+M('c10-no-seek-back', 'C10', "    # Restore the stream to the initial position\n    stream.seek(initial_pos)\n", "", 'C10.R3', U)
+M('c10-seed-b-decide-once', 'C10', """                    dest_compressed = should_compress(
+                        source_stream=read_handle,
+                        compress_mode=compress_mode,
+                        source_compressed=source_compressed,
+                        source_length=length,
+                        source_size=size,
+                    )
+""", """                    if not obj_dicts or compress_mode == CompressMode.AUTO:
+                        dest_compressed = should_compress(
+                            source_stream=read_handle,
+                            compress_mode=compress_mode,
+                            source_compressed=source_compressed,
+                            source_length=length,
+                            source_size=size,
+                        )
+""", 'C10.R2')
+M('c10-bool-true-to-no', 'C10', """            if compress:
+                compress_mode = CompressMode.YES
+            else:
+                compress_mode = CompressMode.NO""", """            if compress:
+                compress_mode = CompressMode.NO
+            else:
+                compress_mode = CompressMode.NO""", 'C10.R1')
+T('c10-twin-threshold', 'C10', "    compression_threshold = 0.9\n", "    compression_threshold = 0.85\n", U)
+
+# ------------------------------------------------------------------------------------------------ C11
+M('c11-seed-a-lazy-cursor', 'C11', """            deleted_this_chunk = [res[0] for res in results]
+""", """            deleted_this_chunk = results
+""", 'C11.R2')
+M('c11-return-request', 'C11', "        return list(deleted_loose.union(deleted_packed))", "        return list(set(hashkeys))", 'C11.R2')
+M('c11-delete-first-chunk-only', 'C11', "            stmt = delete(Obj).where(Obj.hashkey.in_(chunk)).execution_options(synchronize_session=False)", "            stmt = delete(Obj).where(Obj.hashkey.in_(hashkeys[:900])).execution_options(synchronize_session=False)", 'C11.R1')
+M('c11-dup-prefix', 'C11', "duplicate_fname.startswith(f'{hashkey}.')", "duplicate_fname.startswith(f'{hashkey[:8]}')", 'C11.R1')
+M('c11-seed-b-no-fresh-assert', 'C11', """        assert not self._get_pack_path_from_pack_id(
+            self._REPACK_PACK_ID, allow_repack_pack=True
+        ).exists(), f"The repack pack '{self._REPACK_PACK_ID}' already exists, probably a previous repacking aborted?\"""", """        assert self._get_pack_path_from_pack_id(
+            self._REPACK_PACK_ID, allow_repack_pack=True
+        ), f"The repack pack '{self._REPACK_PACK_ID}' already exists, probably a previous repacking aborted?\"""", 'C11.R3')
+M('c11-keep-empty-pack', 'C11', """            if self._get_pack_path_from_pack_id(pack_id).exists():
+                os.remove(self._get_pack_path_from_pack_id(pack_id))
+            return""", """            return""", 'C11.R4')
+M('c11-order-by-id', 'C11', """                    .where(Obj.pack_id == pack_id)
+                    .order_by(Obj.offset)
+                )
+                for (
+                    rowid,""", """                    .where(Obj.pack_id == pack_id)
+                    .order_by(Obj.id)
+                )
+                for (
+                    rowid,""", 'C11.R3')
+T('c11-twin-list-all', 'C11', "            deleted_this_chunk = [res[0] for res in results]\n", "            deleted_this_chunk = [row[0] for row in results.all()]\n")
+
+# ------------------------------------------------------------------------------------------------ C12
+M('c12-seed-a-overwrite', 'C12', """            for error_type, problematic_objects in pack_errors.items():
+                all_errors[error_type] += problematic_objects""", """            all_errors.update(pack_errors)""", 'C12.R3')
+M('c12-seed-b-range', 'C12', "        all_pack_ids = sorted({res[0] for res in session.execute(select(Obj.pack_id).distinct())})", "        all_pack_ids = list(range(max([res[0] for res in session.execute(select(Obj.pack_id).distinct())] or [-1]) + 1))", 'C12.R2')
+M('c12-skip-compressed', 'C12', """                if computed_hash != hashkey:
+                    invalid_hashes.append(hashkey)""", """                if computed_hash != hashkey and not compressed:
+                    invalid_hashes.append(hashkey)""", 'C12.R2')
+M('c12-drop-size-check', 'C12', """                if computed_size != size:
+                    invalid_sizes.append(hashkey)
+""", "", 'C12.R2')
+M('c12-overlap-le', 'C12', "                if offset < current_pos:", "                if offset <= current_pos:", 'C12.R2')
+M('c12-loose-not-recorded', 'C12', "                if computed_hash != hashkey:\n                    all_errors['invalid_hashes_loose'].append(hashkey)", "                if computed_hash != hashkey and callback:\n                    all_errors['invalid_hashes_loose'].append(hashkey)", 'C12.R1')
+M('c12-cli-exit-zero', 'C12', "    if errors_found:\n        sys.exit(1)", "    if errors_found and verbose:\n        sys.exit(1)", 'C12.R3', 'disk_objectstore/cli.py')
+T('c12-twin-rename', 'C12', "        all_pack_ids = sorted({res[0] for res in session.execute(select(Obj.pack_id).distinct())})", "        all_pack_ids = sorted({row[0] for row in session.execute(select(Obj.pack_id).distinct())})")
+
+# ------------------------------------------------------------------------------------------------ C16
+M('c16-left-key-wrong', 'C16', """            for res, where in detect_where_sorted(pack_iterator, sorted_hashkeys, left_key=lambda x: x[1]):
+                if where == Location.BOTH:
+                    # If it's in both, it returns the left one, i.e. the full data from the DB
+                    packs[res[0]].append(ObjQueryResults(res[1], res[2], res[3], res[4], res[5]))
+
+        for pack_int_id, pack_metadata in packs.items():
+            pack_metadata.sort(key=lambda metadata: metadata.offset)
+            hashkeys_in_packs""", """            for res, where in detect_where_sorted(pack_iterator, sorted_hashkeys, left_key=lambda x: x[0]):
+                if where == Location.BOTH:
+                    # If it's in both, it returns the left one, i.e. the full data from the DB
+                    packs[res[0]].append(ObjQueryResults(res[1], res[2], res[3], res[4], res[5]))
+
+        for pack_int_id, pack_metadata in packs.items():
+            pack_metadata.sort(key=lambda metadata: metadata.offset)
+            hashkeys_in_packs""", 'C16.R1')
+M('c16-drop-order-by', 'C16', "            pack_iterator = session.execute(text('SELECT hashkey FROM db_object ORDER BY hashkey'))\n\n            # The query returns a tuple of length 1, so I still need a left_key\n            for res, where in detect_where_sorted(pack_iterator, sorted_hashkeys, left_key=lambda x: x[0]):\n                if where == Location.BOTH:\n                    existing_packed_hashkeys.append(res[0])\n\n        # I remove them", "            pack_iterator = session.execute(text('SELECT hashkey FROM db_object'))\n\n            # The query returns a tuple of length 1, so I still need a left_key\n            for res, where in detect_where_sorted(pack_iterator, sorted_hashkeys, left_key=lambda x: x[0]):\n                if where == Location.BOTH:\n                    existing_packed_hashkeys.append(res[0])\n\n        # I remove them", 'C16.R1')
+M('c16-chunk-5000', 'C16', "    _IN_SQL_MAX_LENGTH = 950", "    _IN_SQL_MAX_LENGTH = 5000", 'C16.R')
+M('c16-last-pk-first-row', 'C16', """            if not results_chunk:
+                break
+            last_pk = results_chunk[-1][0]""", """            if not results_chunk:
+                break
+            last_pk = results_chunk[0][0]""", 'C16.R3')
+M('c16-paging-ge', 'C16', "            stmt = select(Obj.id, Obj.hashkey).where(Obj.id > last_pk).order_by(Obj.id).limit(yield_per_size)\n            results_chunk = session.execute(stmt).all()\n\n            for _, hashkey in results_chunk:\n                # I need to use a comma", "            stmt = select(Obj.id, Obj.hashkey).where(Obj.id >= last_pk).order_by(Obj.id).limit(yield_per_size)\n            results_chunk = session.execute(stmt).all()\n\n            for _, hashkey in results_chunk:\n                # I need to use a comma", 'C16.R3')
+M('c16-drop-right-guard', 'C16', """                if new <= last_right:
+                    raise ValueError(
+                        f"The right iterator does not return sorted unique entries, I got '{new}' after '{last_right}'"
+                    )
+""", "", 'C16.R4', U)
+M('c16-clean-rightonly', 'C16', """            for res, where in detect_where_sorted(pack_iterator, sorted_hashkeys, left_key=lambda x: x[0]):
+                if where == Location.BOTH:
+                    existing_packed_hashkeys.append(res[0])
+
+        # I now clean up""", """            for res, where in detect_where_sorted(pack_iterator, sorted_hashkeys, left_key=lambda x: x[0]):
+                if where != Location.LEFTONLY:
+                    existing_packed_hashkeys.append(res[0])
+
+        # I now clean up""", 'C16.R1')
+M('c16-has-objects-set', 'C16', "        return [hashkey in existing_hashkeys for hashkey in hashkeys]", "        return [hashkey in existing_hashkeys for hashkey in set(hashkeys)]", 'C16.R2')
+T('c16-twin-threshold', 'C16', "    _MAX_CHUNK_ITERATE_LENGTH = 9500", "    _MAX_CHUNK_ITERATE_LENGTH = 5000")
+T('c16-twin-in-length', 'C16', "    _IN_SQL_MAX_LENGTH = 950", "    _IN_SQL_MAX_LENGTH = 900")
